@@ -15,7 +15,7 @@ DEPTH = 40
 
 HEADER = """From Coq Require Import List ZArith NArith Bool Arith.
 Import ListNotations.
-From PyccoloV Require Import gen.Events model.Tree model.Erase model.RwFrag model.FragSem model.FragFun.
+From PyccoloV Require Import gen.Events model.Tree model.Erase model.RwFrag model.FragSem model.FragFun proofs.FragFunProofs.
 Local Open Scope N_scope.
 Definition encv (v : val) : Z * Z := match v with VInt z => (0, z) | VBool b => (1, if b then 1 else 0) | VNone => (2, 0) | VStr s => (3, Z.of_N s) | VFun _ => (4, 0) end%Z.
 Definition enco (o : option val) : Z * Z := match o with Some v => encv v | None => (4, 0)%Z end.
@@ -33,7 +33,7 @@ Definition one (c : rcfg) (ge : bool) (rules : list (nat * bool * N)) (names : l
       let a := X c (mkpol rules) DEPTHnat im (fun _ => None) VNone in
       let p := X c (mkpol rules) DEPTHnat m (fun _ => None) VNone in
       let rf := fref_module Py.binop Py.cmpop Py.unop Py.truth Py.cval Py.is_and c (mkpol rules) ge DEPTHnat m (fun _ => None) in
-      Some (tree_eqb (tf_module im) o,
+      Some (tree_eqb (tf_module im) o && forallb fsrc_t m,
             (encx (f_exc a), encenv (f_env a) names, map ence (filter_log c (f_log a))),
             (encx (fr_exc rf), encenv (fr_env rf) names, map ence (filter_log c (fr_log rf))),
             (encx (f_exc p), encenv (f_env p) names))
@@ -173,7 +173,7 @@ def gen_cases(rng, n):
         rules = []
         for _ in range(rng.choice([0, 1, 2, 3, 4])):
             rules.append([rng.randrange(1, 50), rng.random() < 0.3, rng.randrange(0, 3)])
-        cases.append({"src": g.program(), "events": ev, "guards": rng.random() < 0.75, "rules": rules})
+        cases.append({"src": g.program(), "events": ev, "guards": rng.random() < 0.75, "rules": rules, "frag": "fun"})
     return cases
 
 
@@ -260,7 +260,8 @@ def check(ctx, rng, n, extra_cases=()):
                                    "guards_found": im.get("guards_found"), "kind": "function-guards"})
                 continue
             if same_tree is not True:
-                problems.append("tf_module (finstr_module c ge m) differs from the real rewriter's output")
+                problems.append("tf_module (finstr_module c ge m) differs from the real rewriter's output, or the program read off the source tree does not satisfy the "
+                                "theorems' hypothesis forallb fsrc_t")
             if EXC.get(im["exc"], 9) != mx or [tuple(x) for x in menv] != impl_env or mlog_ != impl_log:
                 problems.append("evaluation of the instrumented term under the guard policy differs from the real run (exception / bindings / event stream)")
             if EXC.get(im["plain_exc"], 9) != px or [tuple(x) for x in penv] != plain_env:
@@ -282,3 +283,36 @@ def check(ctx, rng, n, extra_cases=()):
         ctx.tie_broken("correspondence", "K-fun: model/FragFun.v (rewriter on functions / calls / return, function guards, evaluation under a guard policy, gated reference "
                        "stream) and the real rewriter / CPython / runtime disagree on %d of %d programs" % (len(bad), len(cases)), json.dumps(bad[0])[-5000:])
     return len(cases), ok, dist, violations
+
+
+def run_into(ctx, rng, r, n):
+    """K-fun inside a property's run(): builds the model, runs n programs (known / fixed replays of this fragment first), folds the outcome into r"""
+    ok3, out3 = lib.coq_make(["model/FragFun.vo", "proofs/FragFunProofs.vo"])
+    if not ok3:
+        ctx.tie_broken("correspondence", "model/FragFun.v / proofs/FragFunProofs.v do not build", out3)
+        return
+    extra = [dict(x) for x in getattr(ctx, "known_replays", []) + getattr(ctx, "fixed_replays", []) if x.get("frag") == "fun"]
+    nf, okf, distf, viol = check(ctx, rng, n, extra_cases=extra)
+    for f in viol[:2]:
+        f.update({"signature": "unlisted", "kind_": "oracle", "harness": "c01_fun.py"})
+        r["failures"].append(f)
+    r["evaluations"] = r.get("evaluations", 0) + nf
+    r["traces_validated"] = r.get("traces_validated", 0) + okf
+    r.setdefault("distribution", {})
+    r["distribution"]["k_fun_programs"] = nf
+    r["distribution"]["k_fun_agreeing"] = okf
+    r["distribution"]["k_fun_detail"] = distf
+    r["rule"] = r.get("rule", "") + ("; K-fun: %d generated programs of the function fragment (ints / bools / None; 1-3 module-level functions with 0-2 parameters, "
+                                     "locals shadowing globals, return with and without value and from inside if, calls as whole right-hand sides with wrong arity / "
+                                     "uncallable / unbound callees, a recursive function, a re-definition) x event subsets incl. the ten function / call / argument / "
+                                     "return events x global guards on 75%% x 0-4 guard rules (at the k-th delivered event switch the guard of some function off or on): "
+                                     "whole tree, exception, bindings and stream vs model/FragFun.v, hypothesis fsrc_t computed; the stream vs the gated reference is "
+                                     "the oracle" % nf)
+
+
+def replay_case(case):
+    class _Quiet:
+        def tie_broken(self, *a, **k):
+            pass
+    _, _, _, viol = check(_Quiet(), random.Random(0), 0, extra_cases=[case])
+    return viol[0] if viol else None
